@@ -1,6 +1,79 @@
-//! Special runner `tvh c19 ...` for C19 (things that do not fit replay/record). Fill in.
+//! Special runner for C19.
+//!
+//! `tvh c19 replay <cases> <report> [from]` - spec -> impl: for every TLC-generated case execute the wrapper and its
+//!     core twin (ops_wrap) and judge wrapper = core = spec: the two outcomes must be equal (value AND error kind) and,
+//!     unless the spec's expectation is `{"kind":"same"}`, equal to the expectation. One report line per disagreement.
+//!     If a call panics while holding the process-wide TZ_PROVIDER lock the lock is poisoned and every later compiled
+//!     call would fail; the runner then stops and reports `poisoned_at` so that the pipeline can resume in a fresh process.
+//! `tvh c19 names <rows.json>` - which method-table names the three dispatch tables do not know (table cross-check).
+use crate::ops;
+use crate::ops_wrap;
+use serde_json::{json, Value};
+use std::io::{BufRead, BufReader, Write};
+
+pub fn same_outcome(a: &Value, b: &Value) -> bool {
+    let (ka, kb) = (a["kind"].as_str().unwrap_or("?"), b["kind"].as_str().unwrap_or("?"));
+    ka == kb && (ka != "ok" || a["val"] == b["val"]) && !ka.starts_with("unknown")
+}
+
+/// None = agrees; Some(reason)
+pub fn judge(expected: &Value, obs: &Value) -> Option<&'static str> {
+    let (w, c) = (&obs["wrapper"], &obs["core"]);
+    let spec = expected["kind"].as_str().unwrap_or("") != "same";
+    let wc = same_outcome(w, c);
+    match (wc, spec) {
+        (true, false) => None,
+        (true, true) => if same_outcome(w, expected) { None } else { Some("wrapper=core!=spec") },
+        (false, false) => Some("wrapper!=core"),
+        (false, true) => Some(if same_outcome(c, expected) { "wrapper!=core=spec" } else if same_outcome(w, expected) { "core!=wrapper=spec" } else { "wrapper!=core!=spec" }),
+    }
+}
+
+fn poisoned() -> bool { temporal_rs::verif::provider_lock_poisoned() }
+
+fn replay(a: &[String]) {
+    let from: usize = a.get(2).map(|s| s.parse().expect("from")).unwrap_or(0);
+    let lines: Vec<String> = BufReader::new(std::fs::File::open(&a[0]).expect("cases")).lines().map(|l| l.unwrap()).filter(|l| !l.trim().is_empty()).collect();
+    let n = lines.len();
+    let mut f = std::fs::OpenOptions::new().create(true).append(from > 0).write(true).truncate(from == 0).open(&a[1]).expect("report");
+    let mut mism = 0usize;
+    let mut samples = Vec::new();
+    let mut poisoned_at: Option<usize> = None;
+    let mut done = 0usize;
+    for i in from..n {
+        let c: Value = serde_json::from_str(&lines[i]).expect("case json");
+        let op = c["op"].as_str().expect("op");
+        let obs = ops::exec(op, &c["args"]);
+        done += 1;
+        if i % (n / 4 + 1) == 0 { samples.push(json!({"op": op, "args": c["args"], "expected": c["out"], "observed": obs})); }
+        if let Some(why) = judge(&c["out"], &obs) {
+            mism += 1;
+            writeln!(f, "{}", json!({"i": i + 1, "op": op, "cls": c.get("cls").cloned().unwrap_or(Value::Null), "why": why,
+                "args": c["args"], "expected": c["out"], "observed": obs})).unwrap();
+        }
+        if !op.starts_with("Wrap.capi.") && poisoned() { poisoned_at = Some(i); break; }
+    }
+    println!("{}", json!({"cases": done, "total": n, "mismatches": mism, "samples": samples, "poisoned_at": poisoned_at}));
+}
+
+fn names(a: &[String]) {
+    let rows: Value = serde_json::from_str(&std::fs::read_to_string(&a[0]).expect("rows")).expect("rows json");
+    let mut unknown = Vec::new();
+    for r in rows.as_array().expect("array") {
+        if r["gen"] != true { continue; }
+        let name = r["name"].as_str().unwrap();
+        let ok_w = match name.strip_prefix("capi.") { Some(n) => ops_wrap::known("capi", n), None => ops_wrap::known("compiled", name) };
+        if !ok_w { unknown.push(json!({"table": "wrapper", "name": name})); }
+        let twin = r["twin"].as_str().unwrap();
+        if !ops_wrap::known("twins", twin) { unknown.push(json!({"table": "twins", "name": twin})); }
+    }
+    println!("{}", json!({"unknown": unknown}));
+}
+
 pub fn main(a: &[String]) {
-    let _ = a;
-    eprintln!("not implemented");
-    std::process::exit(2);
+    match a.first().map(|s| s.as_str()) {
+        Some("replay") => replay(&a[1..]),
+        Some("names") => names(&a[1..]),
+        _ => { eprintln!("usage: tvh c19 replay <cases> <report> [from] | names <rows.json>"); std::process::exit(2); }
+    }
 }
